@@ -29,12 +29,33 @@ def main():
     req = json.loads(line)
     out = {'status': 'error'}
     try:
+      if req.get('mode') == 'fold':
+        # decide a guard p under assumptions: the file holds the assumptions followed by p (last assertion).  Same sequence as the original in-process
+        # folding: push, assert p, check (unsat -> p is false); pop, assert not p, check (unsat -> p is true)
+        fs = list(z3.parse_smt2_file(req['path']))
+        pre, pp = fs[:-1], fs[-1]
+        s = z3.Solver()
+        s.set('timeout', int(req['timeout'] * 1000))
+        s.add(pre)
+        s.push()
+        s.add(pp)
+        if s.check() == z3.unsat:
+          out = {'status': 'false'}
+        else:
+          s.pop()
+          s.add(z3.Not(pp))
+          out = {'status': 'true' if s.check() == z3.unsat else 'undecided'}
+        sys.stdout.write(json.dumps(out) + '\n')
+        sys.stdout.flush()
+        continue
       if req.get('tactic'):
         s = z3.Tactic(req['tactic']).solver()
       else:
         s = z3.Solver()
       s.set('timeout', int(req['timeout'] * 1000))
       s.from_file(req['path'])
+      if req.get('incremental'):
+        s.push()      # switches z3 to its incremental core (smt + nla) instead of the nlsat tactic: decides different (often more of the small guard) queries
       r = s.check()
       out['status'] = str(r)
       if r == z3.sat:
